@@ -467,8 +467,13 @@ def mpf_nthroot(s, n, prec, rnd=round_fast):
         prec2 = prec + 10
         fn = from_int(n)
         nth = mpf_rdiv_int(1, fn, prec2)
-        r = mpf_pow(s, nth, prec2, rnd)
-        s = normalize(r[0], r[1], r[2], r[3], prec, rnd)
+        # s = t * 2**(n*q) with 1/2 <= t < 2**n: the power of two is split off
+        # exactly, so the rounding error of 1/n is amplified by log(t)/n < 1
+        # instead of log(s)/n
+        q = (exp + bc) // n
+        r = mpf_pow((sign, man, exp - n*q, bc), nth, prec2, rnd)
+        r = normalize(r[0], r[1], r[2], r[3], prec, rnd)
+        s = mpf_shift(r, q)
         if flag_inverse:
             return mpf_div(fone, s, prec-extra_inverse, rnd)
         else:
